@@ -17,8 +17,13 @@
     * `canon_perm`    (T)  presentation invariance, for ALL expressions and orderings
     * `canon_idem`    (T)  idempotence, for ALL expressions, under every ordering handed to `canonicalize` (which
                            re-sorts it by variable name; the hypothesis is necessary, see the counterexample in section 3)
+    * `normal_form`   (T)  the two clauses in the words of the property, for the PUBLIC entry point `canonicalize(e, ordering)`
+                           with an explicit ordering or with the default `ordering=None` (recomputed from the expression at
+                           every call): `canonicalize (canonicalize e) = canonicalize e`, and `Present e e'` implies that `e`
+                           and `e'` have the same canonical form (in both directions: `Present` is symmetric)
 -/
 import Y0.Lemmas.CanonIdem
+import Y0.Lemmas.CanonDefault
 
 namespace Y0.C11
 open Y0
@@ -125,5 +130,58 @@ example : canon [Var.plain 1, Var.plain 0, Var.plain 2]
     .ok (.prob none [Var.plain 0, Var.plain 1] []) := by rfl
 example : canon [Var.plain 1, Var.plain 0, Var.plain 2] (.prob none [Var.plain 0, Var.plain 1] []) =
     .ok (.prob none [Var.plain 1, Var.plain 0] []) := by rfl
+
+/-! ## 4. the normal-form theorem for the public entry point -/
+
+/-- `Present` is a symmetric relation (it is reflexive and transitive on well-formed expressions as well; only symmetry is
+needed to read `canon_perm` in both directions) -/
+theorem present_symmetric {e e' : Expr} (h : Present e e') : Present e' e := present_symm h
+
+/-- `canon_perm` in both directions: under every ordering, `e` has the canonical form `a` iff its presentation `e'` has -/
+theorem canon_perm_iff {o : List Var} {e e' : Expr} (h : Present e e') (a : Expr) :
+    canon o e = .ok a ↔ canon o e' = .ok a :=
+  present_canon_iff h a
+
+/-- the canonicaliser consults the ordering only through the NAME order it induces on the variables of each leaf: two
+name-monotone level tables (every ordering `ensure_ordering` produces) that cover the expression give the same result.
+This is what makes the default ordering, recomputed from the expression at every call, harmless. -/
+theorem canon_ordering_irrelevant {o o' : List Var} {e a : Expr} (hc : Covers (levelOf (upgradeOrdering o')) e)
+    (h : canon (upgradeOrdering o) e = .ok a) : canon (upgradeOrdering o') e = .ok a :=
+  canonL_congr (nameMonotone_levelOf o) (nameMonotone_levelOf o') e a hc h
+
+/-- **`normal_form`** (C11 in the words of the property, for `canonicalize(expression, ordering)` as it is called: with an
+explicit ordering `some o` or with the default `none`, where `ensure_ordering` recomputes the ordering from the expression
+it is given — so the second call of clause 1 and the call on `e'` of clause 2 run under a DIFFERENT level table):
+
+  1. canonicalising an already canonical expression returns it unchanged;
+  2. two expressions that differ only by the order of factors, the nesting of products, or the order of variables on
+     either side of the conditioning bar (`Present`) canonicalise to identical objects: whenever one of them has a canonical
+     form, the other has the same.
+
+For ALL expressions (no scoping hypothesis); when `canonicalize` raises (Q-factor, name missing from an explicit ordering,
+denominator canonicalising to Zero) nothing is claimed, and clause 2 shows it then raises on every presentation. -/
+theorem normal_form (oo : Option (List Var)) (e : Expr) :
+    (∀ a, canonicalize e oo = .ok a → canonicalize a oo = .ok a) ∧
+    (∀ e', Present e e' → ∀ a, canonicalize e oo = .ok a ↔ canonicalize e' oo = .ok a) :=
+  ⟨fun _ h => canonicalize_idem_any oo h, fun _ h a => canonicalize_present_any oo h a⟩
+
+/-- the default ordering: `canonicalize(canonicalize(e)) == canonicalize(e)` -/
+theorem canonicalize_default_idem {e a : Expr} (h : canonicalize e none = .ok a) : canonicalize a none = .ok a :=
+  (normal_form none e).1 a h
+
+/-- the default ordering: presentations have identical canonical forms -/
+theorem canonicalize_default_perm {e e' a : Expr} (h : Present e e') :
+    canonicalize e none = .ok a ↔ canonicalize e' none = .ok a :=
+  (normal_form none e).2 e' h a
+
+/-- non-vacuity: with the default ordering the second call runs under a different level table (the canonical form of
+`Sum[A,B](P(A)) * P(C)` no longer mentions `A`), and still returns its argument -/
+example : canonicalize (.prod [.sum (.prob none [Var.plain 0] []) [Var.plain 0, Var.plain 1], .prob none [Var.plain 2] []]) none =
+      .ok (.prod [.prob none [Var.plain 2] [], .sum .one [Var.plain 1]]) ∧
+    (Expr.prod [.sum (.prob none [Var.plain 0] []) [Var.plain 0, Var.plain 1], .prob none [Var.plain 2] []]).getVariables ≠
+      (Expr.prod [.prob none [Var.plain 2] [], .sum .one [Var.plain 1]]).getVariables ∧
+    canonicalize (.prod [.prob none [Var.plain 2] [], .sum .one [Var.plain 1]]) none =
+      .ok (.prod [.prob none [Var.plain 2] [], .sum .one [Var.plain 1]]) := by
+  refine ⟨by rfl, by decide, by rfl⟩
 
 end Y0.C11
